@@ -138,14 +138,15 @@ func c16HighKnown() uint16 {
 var c16Names = []string{"K", "KU1", "KU2", "UAx2", "UBx2", "REDEF", "Zx2", "ZDEV", "DEV", "UNDEF", "BADDEF", "UZx2", "UDEV", "TS", "CK", "CU", "KHI", "KSES", "ZSTR", "TIE"}
 
 type c16Replay struct {
-	Word        []int  `json:"word"`
-	Names       string `json:"word_names"`
-	Cut         int    `json:"cut"`
-	Options     string `json:"options"`
-	Hex         string `json:"stream_hex"`
-	Generic     bool   `json:"generic,omitempty"`
-	Chain       []int  `json:"chain_member_lengths,omitempty"`
-	AfterFileId bool   `json:"after_file_id,omitempty"`
+	Word        []int    `json:"word"`
+	Names       string   `json:"word_names"`
+	Cut         int      `json:"cut"`
+	Options     string   `json:"options"`
+	Hex         string   `json:"stream_hex"`
+	Generic     bool     `json:"generic,omitempty"`
+	Chain       []int    `json:"chain_member_lengths,omitempty"`
+	AfterFileId bool     `json:"after_file_id,omitempty"`
+	Long        *longRun `json:"long_run,omitempty"`
 }
 
 func init() {
@@ -183,7 +184,11 @@ func init() {
 				return "ok", nil
 			}
 			if r.Generic {
-				if msg, _ := c16Generic(vx.UnHex(r.Hex)); msg != "" {
+				stream := vx.UnHex(r.Hex)
+				if r.Long != nil {
+					stream, _, _ = mixStream(r.Long.ops(), true)
+				}
+				if msg, _ := c16Generic(stream); msg != "" {
 					return "", fmt.Errorf("%s: %s", r.Names, msg)
 				}
 				return "ok", nil
@@ -593,6 +598,39 @@ func c16GenericFamilies(w *vx.W) {
 		}
 		return true
 	})
+	// long runs (the counters and the logger after thousands of records): units of the mix family with unknown messages,
+	// unknown fields and developer data, repeated N times, under every option configuration
+	{
+		ns := []int{256, 257, 4097}
+		if !w.Quick() {
+			ns = []int{255, 256, 257, 4095, 4096, 4097, 65535, 65536, 65537}
+		}
+		var li int64
+		for _, k := range []int{0, 1, 2, 3} {
+			for _, a := range []int{3, 7, 14, 0} {
+				for _, n := range append(append([]int{}, ns...), 65537) {
+					if n == 65537 && (w.Quick() && !(k == 1 && a == 7 || k == 0 && a == 3 || k == 3 && a == 14)) {
+						continue
+					}
+					li++
+					if !w.Mine(li) {
+						continue
+					}
+					l := longRun{k, a, 7, n}
+					stream, _, ok := mixStream(l.ops(), true)
+					if !ok {
+						continue
+					}
+					w.Eval(int64(len(c16Configs)))
+					w.Trace(int64(len(c16Configs)))
+					w.Fam("long-runs-all-options", 1)
+					if msg, class := c16Generic(stream); msg != "" {
+						w.Violation("generic/"+class, "long run "+l.String()+": "+msg, c16Replay{Names: "long run " + l.String(), Long: &l, Generic: true})
+					}
+				}
+			}
+		}
+	}
 	// all 16 local message types: an unknown message left defined on local l when the stream ends (two records), and a
 	// known message with an unlisted field on local l2 (same local = redefinition), for every pair (l, l2)
 	for l := 0; l < 16; l++ {
